@@ -170,6 +170,10 @@ def run(ctx):
                         incs = [d for d in ds if d["k"] == "CompoundAssignOperator"]
                         ok = bool(incs) and all("Alignment" in render(kids(d)[1], False) or "alignment" in render(kids(d)[1], False) or "reservationSize" in render(kids(d)[1], False) for d in incs)
             R.ob("C04-R5", ok, q, "size = %s" % why, f.site(n), "size is an aligned amount covering the request" if ok else "pool size assigned a value that is not the aligned request / packed total")
+    # resize / setAlignment recompute `reserved` from the merged blocks of the sweep: the sweep clauses are shared with C03
+    from rules import c03
+    from vlib.refile import refile
+    refile(ctx, c03, {"C03-R4": "C04-R6", "C03-R6": "C04-R7"}, "C03")
 
 
 META = {
